@@ -4,6 +4,7 @@ C = dict(
     prop="C17", driver="dropmeta", level="model_checking",
     model_checks=[
         dict(module="DropMsgMeta", cfg="DropMsgMeta_MCq.cfg", tiers=["quick"]),
+        dict(module="DropMsgMeta", cfg="DropMsgMeta_MCpar.cfg"),
         dict(module="DropMsgMeta", cfg="DropMsgMeta_MC.cfg", tiers=["thorough"]),
     ],
     plan_sources=[
@@ -11,6 +12,9 @@ C = dict(
              tiers=["quick"]),
         dict(name="small4", module="DropMsgMeta", cfg="DropMsgMeta_PlanSmall4.cfg", params={"targets": ["v1", "v2"]},
              tiers=["thorough"]),
+        # two shards reporting the same message at the same time (store write gated, both release orders)
+        dict(name="par", module="DropMsgMeta", cfg="DropMsgMeta_PlanPar.cfg", params={"targets": ["v1", "v2", "v3"]},
+             cap={"quick": 40, "thorough": 1500}),
         dict(name="sim", module="DropMsgMeta", cfg="DropMsgMeta_PlanSim.cfg", simulate={"quick": 60, "thorough": 2000},
              depth=12, cap={"quick": 1500, "thorough": 40000}, params={"targets": ["v1", "v2", "v3"]}),
     ],
@@ -24,10 +28,18 @@ C = dict(
         "store = in-memory api.ReplicateStore whose failures have no effect (fail-before); thorough tier adds nothing on etcd yet",
         "after a FAILED update memory may be ahead of the store (the statement speaks about updates that happened); "
         "the contract then only bounds both by the reports",
+        "concurrent reports: two goroutines, the store's Put is gated; when the implementation serialises the reports (as built: "
+        "one lock around merge and write) the second write only arrives after the first was released (50 ms wait)",
         "TLC exhaustiveness holds for the constants in the cfg files only",
     ],
 )
 
 
 def run(tier, replay=None):
+    if not replay:
+        from lib import vlib
+        r = vlib.run_tlc("DropMsgMeta", "DropMsgMeta_Unlocked.cfg", workers=4, timeout=300)
+        if "Contract" not in r.violated:
+            raise vlib.Inconclusive("DropMsgMeta_Unlocked.cfg no longer violates the contract: concurrent reports are vacuous")
+        vlib.log("[tlc] DropMsgMeta/DropMsgMeta_Unlocked.cfg: violates Contract as expected (merge outside the lock)")
     return flow.standard_flow(C, tier, replay)
